@@ -261,7 +261,7 @@ func (e *Engine) frameSpecOf(fr *Frame, ct *Contract) *frameSpec {
 // frameGoal: "key k changed only where the frame allows" between entry and cur.
 // ok=false when the key is unconstrained by the frame.
 func (fs *frameSpec) frameGoal(vc *VC, k string, entry, cur, al0 T) (T, bool) {
-	if fs.heapAll || fs.wholeKeys[k] || k == "$alloc" || strings.HasPrefix(k, "$visited") || cur.S == entry.S {
+	if fs.heapAll || fs.wholeKeys[k] || k == "$alloc" || strings.HasPrefix(k, "$v") || cur.S == entry.S {
 		return tTrue, false
 	}
 	switch {
